@@ -372,6 +372,10 @@ func TestEffects(t *testing.T) {
 				rec["reply"] = int(rep[1])
 			}
 			time.Sleep(30 * time.Millisecond)
+			// a success reply means the destination was dialled; its accept goroutine may lag on a loaded machine
+			for w := 0; w < 100 && rec["reply"] == 0 && tcpHits.Load() == t0; w++ {
+				time.Sleep(20 * time.Millisecond)
+			}
 		} else {
 			// the ASSOCIATE request itself names an innocuous destination (0.0.0.0:0 as clients do);
 			// the class under test is the destination in the HEADER of the relayed datagram
